@@ -79,7 +79,18 @@ func e2Order(fx *Fixture, work string, rep *Report, depth, dev int) {
 			feats = append(feats, "e2var:"+o.Name, "e2type:"+o.Type)
 		}
 		decl := "type I interface{ M(" + strings.Join(params, ", ") + ") }"
-		sp := &SrcPkg{Dir: fmt.Sprintf("s/order_%d", fi), Name: "src", Files: []SrcFile{{Name: "i.go", Decls: decl + "\n"}}, Ifaces: []IfaceCase{{Name: "I", Src: decl}}}
+		srcAl := map[string]string{}
+		for path, a := range f.Aliases {
+			k := path
+			if strings.HasPrefix(path, modPath+"/") {
+				k = "~/" + strings.TrimPrefix(path, modPath+"/")
+			}
+			srcAl[k] = a
+		}
+		if len(srcAl) > 0 {
+			decl += fmt.Sprintf("  // source aliases %v", f.Aliases)
+		}
+		sp := &SrcPkg{Dir: fmt.Sprintf("s/order_%d", fi), Name: "src", Files: []SrcFile{{Name: "i.go", Aliases: srcAl, Decls: decl + "\n"}}, Ifaces: []IfaceCase{{Name: "I", Src: decl}}}
 		fx.writePkg(sp)
 		const N = 256
 		outs := make([]string, N)
